@@ -9,7 +9,7 @@
    eigenvectors — a hypothesis).  Only statements, `exact`, Print Assumptions. *)
 From Coq Require Import String List Arith Bool Permutation Reals.
 From PV Require Import Base.Sum Model.Sparse Model.W4SPrelude Gen.GenTuckerAls Model.C10Tucker Model.C10Loop Proofs.C10LoopProofs Proofs.W4SHosvdR Proofs.W4STucker
-                       Np.Array Np.NpR Model.Repr Proofs.C10Proofs Proofs.C10ProjR Proofs.C10Rayleigh Proofs.C10Concrete Proofs.C10Fit Proofs.C10GenT Proofs.C10KyFan.
+                       Np.Array Np.NpR Model.Repr Proofs.C10Proofs Proofs.C10ProjR Proofs.C10Rayleigh Proofs.C10Concrete Proofs.C10Fit Proofs.C10GenT Proofs.C10KyFan Gen.GenHosvd Proofs.C10GenR Proofs.C10SeqCore Proofs.C10GenStruct.
 Import ListNotations.
 Local Open Scope nat_scope.
 
@@ -178,3 +178,114 @@ Example C10_example_nvecs_eigen : forall j,
   sweeps_ok _ _ (t_project (@matrix R) (dense R) exk_excl exX) exk_nvecs [1; 1]%nat [1; 0]%nat (nvecs_eigen exk_nvecs exX [1; 1]%nat) j exUs.
 Proof. exact nvecs_eigen_example. Qed.
 Print Assumptions C10_example_nvecs_eigen.
+
+(* the stop rule of the generated function over the reals (`if fitchange < stoptol: break`, fitchange = |fitold - fit|, fitold = 0 in iteration
+   0): iteration limit respected, no earlier iteration met the test, an exit before the limit means the test fired at the reported iteration *)
+Theorem C10_gen_tals_stop_rule :
+  forall (k_ttm_excl : dense R -> list (@matrix R) -> nat -> bool -> dense R) (k_nvecs : dense R -> nat -> nat -> @matrix R)
+    (k_ttm_core : dense R -> list (@matrix R) -> nat -> bool -> dense R) (k_resid : R -> dense R -> R) (k_fit k_absdiff : R -> R -> R)
+    (k_ttensor : dense R -> list (@matrix R) -> bool -> ttensor R),
+  (forall a b, k_absdiff a b = Rabs (a - b)) ->
+  forall (X : dense R) (normX : R) (rank dimorder : list nat) (Uinit : list (@matrix R)) (maxiters : nat) (stoptol : R)
+    (printitn : nat) (sol : ttensor R) (Uret : list (@matrix R)) (iters : nat) (nr fit : R),
+  dimorder <> [] ->
+  GenTuckerAls.tucker_als_main R (@matrix R) (dense R) (ttensor R) Rleb 0 k_ttm_excl k_nvecs k_ttm_core k_resid k_fit k_absdiff k_ttensor
+    X Uinit normX rank dimorder maxiters stoptol printitn = Some (sol, Uret, (iters, nr, fit)) ->
+  let project := t_project (@matrix R) (dense R) k_ttm_excl X in
+  let fat := fit_at (@matrix R) (dense R) (dense R) R project k_nvecs (t_core_of (@matrix R) (dense R) k_ttm_core)
+               (t_normres_of R (dense R) k_resid normX) (t_fit_of R k_fit normX) rank dimorder Uinit in
+  let fbefore := fit_before (@matrix R) (dense R) (dense R) R project k_nvecs (t_core_of (@matrix R) (dense R) k_ttm_core)
+               (t_normres_of R (dense R) k_resid normX) (t_fit_of R k_fit normX) 0 rank dimorder Uinit in
+  (0 < maxiters)%nat /\ (iters < maxiters)%nat /\ fat iters = Some fit /\
+  (forall i, (i < iters)%nat -> exists fo fi, fbefore i = Some fo /\ fat i = Some fi /\ ~ Rabs (fo - fi) < stoptol) /\
+  ((iters < maxiters - 1)%nat -> exists fo, fbefore iters = Some fo /\ Rabs (fo - fit) < stoptol).
+Proof. exact gen_tals_stop_rule. Qed.
+Print Assumptions C10_gen_tals_stop_rule.
+
+(* ---------------------------------------------------------------------------------------- *)
+(* hosvd, sequential truncation, ANY mode order: the returned core satisfies the core relation (Proofs/C10SeqCore.v)                        *)
+(* ---------------------------------------------------------------------------------------- *)
+(* mode products along distinct modes may be taken in any order — dense arrays whose shape changes with every product, every commutative ring *)
+Theorem C10_ttm_order_perm : forall (V : Type) (v0 v1 : V) (vadd vmul vsub : V -> V -> V) (vopp : V -> V),
+  ring_theory v0 v1 vadd vmul vsub vopp (@eq V) ->
+  forall (Ms : list (@matrix V)) (o1 o2 : list nat), Permutation o1 o2 -> forall X : dense V, NoDup o1 ->
+  (forall k, In k o1 -> (k < length (dshape X))%nat) ->
+  ttm_order v0 vadd vmul X o1 Ms = ttm_order v0 vadd vmul X o2 Ms.
+Proof. exact ttm_order_perm. Qed.
+
+(* X shrunk by U_k^T along the modes in the order of ANY permutation dimorder = X x_0 U_0^T x_1 U_1^T ... (what hosvd(sequential=True) returns as core) *)
+Theorem C10_seq_core : forall (X : dense R) (fm : list (@matrix R)) (dimorder : list nat),
+  let d := length (dshape X) in
+  Permutation dimorder (seq 0 d) -> length fm = d -> (forall k, (k < d)%nat -> nrows (nth k fm []) = nth k (dshape X) 0%nat) ->
+  fold_left (fun Z j => shrink1R Z (nth j fm []) j) dimorder X = ttm_all 0 Rplus Rmult X (transposed 0 fm).
+Proof. exact seq_core. Qed.
+
+(* ... for what the translator-GENERATED mode loop (Gen/GenHosvd.v) returns with sequential = True: its third component (hosvd's core) is the
+   data multiplied in every mode by the transposed factor; kernels arbitrary, k_shrink Y fm k = Y x_k fm[k]^T; given or automatic ranks *)
+Theorem C10_gen_hosvd_seq_core :
+  forall (k_unfold : dense R -> nat -> @matrix R) (k_gram : @matrix R -> @matrix R) (k_eigh : @matrix R -> list R * @matrix R)
+    (k_argsort_desc : list R -> list nat) (k_take : list R -> list nat -> list R) (k_select_cols : @matrix R -> list nat -> @matrix R)
+    (k_shrink : dense R -> list (@matrix R) -> nat -> dense R),
+  (forall Y fm k U, nth_error fm k = Some U -> k_shrink Y fm k = shrink1R Y U k) ->
+  forall (X : dense R) (dimorder ranks : list nat) (t : R) (fm0 fm : list (@matrix R)) (ranks' : list nat) (Y' : dense R),
+  let d := length (dshape X) in
+  Permutation dimorder (seq 0 d) -> length ranks = d -> length fm0 = d ->
+  GenHosvd.hosvd_modes R (dense R) (@matrix R) Rleb 0 Rplus k_unfold k_gram k_eigh k_argsort_desc k_take k_select_cols k_shrink
+    dimorder ranks t X fm0 true = Some (fm, ranks', Y') ->
+  (forall k, (k < d)%nat -> nrows (nth k fm []) = nth k (dshape X) 0%nat) ->
+  Y' = ttm_all 0 Rplus Rmult X (transposed 0 fm).
+Proof. exact gen_hosvd_seq_core. Qed.
+Print Assumptions C10_ttm_order_perm.
+Print Assumptions C10_seq_core.
+Print Assumptions C10_gen_hosvd_seq_core.
+
+Example C10_example_gen_hosvd_seq_core :
+  let s := [2; 3]%nat in
+  exists ranks' Y',
+  GenHosvd.hosvd_modes R (dense R) (@matrix R) Rleb 0%R Rplus exk_unfold exk_gram exk_eigh exk_argsort exk_take exk_select exk_shrink
+    [1; 0]%nat (repeat 0%nat 2) (1 / 2 * nrm2 (dense R) (innerR s) exX / INR 2)%R exX [[]; []] true = Some (exUs, ranks', Y') /\
+  Y' = ttm_all 0 Rplus Rmult exX (transposed 0 exUs).
+Proof. exact gen_hosvd_seq_core_example. Qed.
+Print Assumptions C10_example_gen_hosvd_seq_core.
+
+(* ---------------------------------------------------------------------------------------- *)
+(* THE STRUCTURAL CONTRACT of hosvd over the generated mode loop (Proofs/C10GenStruct.v): requested rank vectors within the mode sizes          *)
+(* (0 = automatic), both truncation strategies, every mode order, under the per-run eigen-solver contract run_ok: factor k is I_k x ranks'[k] with     *)
+(* orthonormal columns, ranks'[k] is EXACTLY the requested rank when one was given (in 1..I_k otherwise); sequential: core = X x_n U_n^T               *)
+(* ---------------------------------------------------------------------------------------- *)
+Theorem C10_auto_rank_range : forall (V : Type) (v0 : V) (vadd : V -> V -> V) (vltb : V -> V -> bool) (eig : list V) (t : V) (r : nat),
+  auto_rank v0 vadd vltb eig t = Some r -> (0 < r <= length eig)%nat.
+Proof. exact (@auto_rank_range). Qed.
+
+Theorem C10_gen_hosvd_structure :
+  forall (k_unfold : dense R -> nat -> @matrix R) (k_gram : @matrix R -> @matrix R) (k_eigh : @matrix R -> list R * @matrix R)
+    (k_argsort_desc : list R -> list nat) (k_take : list R -> list nat -> list R) (k_select_cols : @matrix R -> list nat -> @matrix R)
+    (k_shrink : dense R -> list (@matrix R) -> nat -> dense R),
+  (forall Y fm k U, nth_error fm k = Some U -> k_shrink Y fm k = shrink1R Y U k) ->
+  forall (sq : bool) (X : dense R) (dimorder ranks : list nat) (t : R) (fm0 fm : list (@matrix R)) (ranks' : list nat) (Y' : dense R),
+  let s := dshape X in let d := length s in
+  Permutation dimorder (seq 0 d) -> length ranks = d -> length fm0 = d ->
+  (forall k, (k < d)%nat -> (nth k ranks 0 <= nth k s 0)%nat) ->
+  GenHosvd.hosvd_modes R (dense R) (@matrix R) Rleb 0%R Rplus k_unfold k_gram k_eigh k_argsort_desc k_take k_select_cols k_shrink
+    dimorder ranks t X fm0 sq = Some (fm, ranks', Y') ->
+  run_ok k_unfold k_gram k_eigh k_argsort_desc k_take k_select_cols sq fm dimorder X ->
+  length fm = d /\
+  (forall k, (k < d)%nat ->
+     let U := nth k fm [] in let r := nth k ranks' 0%nat in
+     (nth k ranks 0%nat <> 0%nat -> r = nth k ranks 0%nat) /\ (0 < r <= nth k s 0)%nat /\
+     nrows U = nth k s 0%nat /\ ncols U = r /\ orthocolsR (nth k s 0%nat) r U) /\
+  (sq = true -> Y' = ttm_all 0%R Rplus Rmult X (transposed 0%R fm)).
+Proof. exact gen_hosvd_structure. Qed.
+Print Assumptions C10_auto_rank_range.
+Print Assumptions C10_gen_hosvd_structure.
+
+Example C10_example_gen_hosvd_structure :
+  exists Y',
+  GenHosvd.hosvd_modes R (dense R) (@matrix R) Rleb 0%R Rplus exk_unfold exk_gram exk_eigh exk_argsort exk_take exk_select exk_shrink
+    [1; 0]%nat [1; 1]%nat 0%R exX [[]; []] true = Some (exUs, [1; 1]%nat, Y') /\
+  run_ok exk_unfold exk_gram exk_eigh exk_argsort exk_take exk_select true exUs [1; 0]%nat exX /\
+  (forall k, (k < 2)%nat -> nrows (nth k exUs []) = nth k [2; 3]%nat 0%nat /\ ncols (nth k exUs []) = nth k [1; 1]%nat 0%nat /\
+                      orthocolsR (nth k [2; 3]%nat 0%nat) (nth k [1; 1]%nat 0%nat) (nth k exUs [])) /\
+  Y' = ttm_all 0%R Rplus Rmult exX (transposed 0%R exUs).
+Proof. exact gen_hosvd_structure_example. Qed.
+Print Assumptions C10_example_gen_hosvd_structure.
